@@ -14,6 +14,8 @@ thread_local! {
 const ALPHA_A: [&str; 14] = ["'", "\"", "`", "\\", "$", "(", ")", "{", "}", "|", "&", ">", " ", "a"];
 // multi-byte characters next to the characters the tokenizer looks ahead for
 const ALPHA_C: [&str; 14] = ["|", "(", ")", "'", "\"", "\\", "$", " ", "é", "中", "a", ">", "&", ";"];
+// backslashes next to every kind of blank (ASCII, tab, newline, multi-byte Unicode white space) and list separators
+const ALPHA_D: [&str; 14] = ["\\", "\u{3000}", "\u{a0}", "\u{2003}", " ", "\t", "\n", ";", "a", "|", "&", "'", "\"", "$"];
 const ALPHA_B: [&str; 14] = [";", "<", "*", "~", "#", ",", "..", "1", "+", "^", "=", "é", "$X", "2>&1"];
 
 fn jstr(s: &str) -> String {
@@ -149,7 +151,7 @@ pub fn main(args: &[String]) {
     std::env::set_var("Z", "$Y");
     v::set_step_budget(2000);
     v::set_exec_hook(Some(Box::new(|_cl, _capture| Some(v::CommandResult::new()))));
-    let alpha: &[&str] = if which == "A" { &ALPHA_A } else if which == "C" { &ALPHA_C } else { &ALPHA_B };
+    let alpha: &[&str] = if which == "A" { &ALPHA_A } else if which == "C" { &ALPHA_C } else if which == "D" { &ALPHA_D } else { &ALPHA_B };
     let mut sh = v::Shell::new();
     sh.previous_cmd = "prev cmd".to_string();
     let mut total: u64 = 0;
